@@ -80,6 +80,50 @@ def snapshot() -> dict:
     return out
 
 
+def fast() -> dict:
+    """the mutable containers only (dict / list / set): what an in-place edit can change"""
+    out = {}
+    for label, owner, attr in slots():
+        v = vars(owner).get(attr)
+        if isinstance(v, (dict, list, set)):
+            try:
+                out[label] = canon(v)
+            except Exception as e:      # noqa: BLE001
+                out[label] = f"<unreadable {type(e).__name__}>"
+    return out
+
+
+def _sig(v, depth: int = 0):
+    """structure of nested containers with scalars by value and every other object by identity:
+    what an in-place edit of a shared dict / list / set changes (cheap: no descent into objects)"""
+    if v is None or isinstance(v, (bool, int, float, str, bytes)):
+        return v
+    if depth > 5:
+        return id(v)
+    if isinstance(v, dict):
+        return tuple(sorted(((repr(k), _sig(x, depth + 1)) for k, x in v.items()), key=lambda p: p[0]))
+    if isinstance(v, (list, tuple)):
+        return tuple(_sig(x, depth + 1) for x in v)
+    if isinstance(v, (set, frozenset)):
+        return tuple(sorted(repr(_sig(x, depth + 1)) for x in v))
+    return id(v)
+
+
+def shallow() -> int:
+    """hash of the container structure of every watched slot – compared after every request; when it
+    differs the full `fast()` snapshots tell which attribute changed"""
+    acc = []
+    seen = {}
+    for label, owner, attr in slots():
+        v = vars(owner).get(attr)
+        if isinstance(v, (dict, list, set)):
+            k = id(v)
+            if k not in seen:
+                seen[k] = hash(repr(_sig(v)))
+            acc.append(seen[k])
+    return hash(tuple(acc))
+
+
 def diff(a: dict, b: dict) -> list:
     """labels whose value changed between two snapshots, with both values (shortened)"""
     return [{"attribute": k, "before": a.get(k, "<absent>")[:300], "after": b.get(k, "<absent>")[:300]}
